@@ -750,9 +750,10 @@ def run(ctx: Ctx):
     logging.disable(logging.CRITICAL)
     try:
         scripts = gen_scripts(ctx)
+        n_boundary = len(boundary_scripts())
         lines, impls, runners = [], [], []
         for k, script in enumerate(scripts):
-            keyseed = ctx.seed * 1000003 + k
+            keyseed = k if k < n_boundary else ctx.seed * 1000003 + k  # boundary scripts replay identically for every seed
             r = _execute(ctx, script, keyseed)
             runners.append(r)
             lines.append(r.model_line())
